@@ -175,6 +175,7 @@ Detokenize from image: `a2kit get -f prog -t atok -d myimg.dsk | a2kit detokeniz
             .arg(Arg::new("len").long("len").short('l').help("length of record in DOS 3.3 random access text file")
                 .value_name("LENGTH").required(false)
             )
+            .arg(indent_arg.clone())
             .about("unpack data from a file image")
     );
     main_cmd = main_cmd.subcommand(
